@@ -17,20 +17,25 @@ REG.add(Contract('<ext>', 'ConfigParserOverrideTuple.__init__',
                                  z3.Implies(z3.Not(v.val('value').isnone), o_val(v.self) == v._ex.term_of(v.val('value').val, v._st))],
     external=True, note='collections.namedtuple constructor: the fields are the arguments', props=['C14']))
 
-# ---- SECTION:KEY=VALUE: the section is the text before the first colon, the key the text between it and the first "=" after it
+# ---- SECTION_NAME:KEY[=VALUE].  Option keys contain neither ':' nor '=' (they are the INI delimiters); section names may contain colons
+# ([Table-Form:NAME]).  So for an item with a value, the value is the text after the first '=' that follows the first colon; and in the rest
+# (all of the item when there is no value) the key is the text after the LAST colon, the section name the text before it.
 # (named by spec functions; their definitions by text positions are revealed only where the text is taken apart: _create_override_tuple)
-item_sec = z3.Function('item_section', StrS, StrS); item_key = z3.Function('item_key', StrS, BoolS, StrS); item_val = z3.Function('item_value', StrS, StrS)
+item_sec = z3.Function('item_section', StrS, BoolS, StrS); item_key = z3.Function('item_key', StrS, BoolS, StrS); item_val = z3.Function('item_value', StrS, StrS)
 item_ok = z3.Function('item_wellformed', StrS, BoolS, BoolS)
-def _rest(t): return z3.SubString(t, z3.IndexOf(t, COLON, 0) + 1, z3.Length(t) - z3.IndexOf(t, COLON, 0) - 1)
+def _eq_pos(t): return z3.IndexOf(t, EQ, z3.IndexOf(t, COLON, 0))          # the first '=' at or after the first colon
+def _left(t, hv): return z3.If(hv, z3.SubString(t, 0, _eq_pos(t)), t)       # SECTION_NAME:KEY
+def splits_at_last_colon(left, sec, key):
+    return z3.And(left == z3.Concat(sec, COLON, key), z3.Not(z3.Contains(key, COLON)))
 def item_definitions():
     t = z3.String('t!it'); hv = z3.Bool('hv!it')
-    return [z3.ForAll([t], item_sec(t) == z3.SubString(t, 0, z3.IndexOf(t, COLON, 0)), patterns=[item_sec(t)]),
-            z3.ForAll([t, hv], item_key(t, hv) == z3.If(hv, z3.SubString(_rest(t), 0, z3.IndexOf(_rest(t), EQ, 0)), _rest(t)), patterns=[item_key(t, hv)]),
-            z3.ForAll([t], item_val(t) == z3.SubString(_rest(t), z3.IndexOf(_rest(t), EQ, 0) + 1, z3.Length(_rest(t)) - z3.IndexOf(_rest(t), EQ, 0) - 1), patterns=[item_val(t)]),
-            z3.ForAll([t, hv], item_ok(t, hv) == z3.And(z3.Contains(t, COLON), z3.Implies(hv, z3.Contains(_rest(t), EQ))), patterns=[item_ok(t, hv)])]
+    return [z3.ForAll([t, hv], z3.Implies(item_ok(t, hv), splits_at_last_colon(_left(t, hv), item_sec(t, hv), item_key(t, hv))), patterns=[item_sec(t, hv)]),
+            z3.ForAll([t, hv], z3.Implies(item_ok(t, hv), splits_at_last_colon(_left(t, hv), item_sec(t, hv), item_key(t, hv))), patterns=[item_key(t, hv)]),
+            z3.ForAll([t], item_val(t) == z3.SubString(t, _eq_pos(t) + 1, z3.Length(t) - _eq_pos(t) - 1), patterns=[item_val(t)]),
+            z3.ForAll([t, hv], item_ok(t, hv) == z3.And(z3.Contains(t, COLON), z3.Implies(hv, _eq_pos(t) >= 0)), patterns=[item_ok(t, hv)])]
 def is_edit(o, t, has_value):
     """the edit o is the one the command line item t denotes"""
-    return z3.And(o_sec(o) == item_sec(t), o_key(o) == item_key(t, has_value), o_none(o) == z3.Not(has_value), z3.Implies(has_value, o_val(o) == item_val(t)))
+    return z3.And(o_sec(o) == item_sec(t, has_value), o_key(o) == item_key(t, has_value), o_none(o) == z3.Not(has_value), z3.Implies(has_value, o_val(o) == item_val(t)))
 
 REG.add(Contract(F_CLI, '_create_override_tuple', params=[('key', T.Str), ('has_value', T.Bool)], defaults={'has_value': True}, result=T.Obj('ConfigParserOverrideTuple'),
     requires=lambda v: [item_ok(v.key, v.has_value)],      # malformed items (the TODO in the source): ValueError from the unpacking -- outside C14, which quantifies over operations on a section and key
@@ -68,7 +73,7 @@ viewed = view_source_fn('WrappedParser', 'ConfigParser')
 StrL = z3.SeqSort(StrS); StrLL = z3.SeqSort(StrL)
 flat = chain_flat_fn(T.Str)
 KS = TupleSort([StrS, StrS])
-def kof(t, hv): return KS.mk(item_sec(t), item_key(t, z3.BoolVal(hv)))
+def kof(t, hv): return KS.mk(item_sec(t, z3.BoolVal(hv)), item_key(t, z3.BoolVal(hv)))
 def keyof(o): return KS.mk(o_sec(o), o_key(o))
 items_fn = z3.Function('items_given', BoolS, StrLL, StrL)
 def items_definitions():
